@@ -254,6 +254,11 @@ def run(cx, rep):
     # ---------------------------------------------------------------- C07.4
     rep.rule("C07.4", "polarity of materialised literal sets and atoms")
     n_mn = 0
+    # the negation wrapper, by signature: fn(Runtype, bool) -> Runtype in to_schema.rs (whatever it is called)
+    wrappers = {g for g, f in F.fns.items() if (f.file or "").endswith("subtyping/to_schema.rs") and f.kind != "Closure"
+                and [t.rsplit("::", 1)[-1] for t in (f.inputs or [])] == ["Runtype", "bool"] and (f.output or "").endswith("Runtype")}
+    rep.floor("C07.4", "negation wrapper fn(Runtype, bool) -> Runtype", len(wrappers), 1)
+    n_conj = 0
     for g in sorted(F.hir):
         f = F.fns.get(g)
         if f is None or not (f.file or "").endswith("subtyping/to_schema.rs"):
@@ -269,22 +274,23 @@ def run(cx, rep):
                     continue
                 bound = flds["allowed"]
                 for c in walk(a["body"]):
-                    if c["k"] == "Call" and (c.get("callee") or "").endswith("::maybe_not"):
+                    if c["k"] == "Call" and F._callee_gid(f.crate, c.get("callee") or "") in wrappers:
                         n_mn += 1
                         flag = c["args"][1]
                         ok = flag["k"] == "Unary" and flag["op"] == "Not" and locals_in(flag["e"]) == [bound]
                         rep.ob("C07.4", "maybe_not/%s" % (a["pat"].get("def") or "?").rsplit("::", 1)[-1], ok,
                                "maybe_not must be called with `!%s` of the enclosing %s arm (excluded sets are materialised as Not)" % (bound, a["pat"].get("def")),
                                "%s:%s" % (f.file, c["line"]))
-        if f.name == "maybe_not":
+        if g in wrappers:
             ps = [p.get("name") for p in tree["params"]]
             ifs = [n for n in walk(tree["body"]) if n["k"] == "If"]
             ok = len(ifs) == 1 and locals_in(ifs[0]["cond"]) == [ps[1]] and ifs[0]["cond"]["k"] == "Path" and \
                 any((x.get("callee") or "").endswith("::st_not") for x in walk(ifs[0]["then"]) if x["k"] == "Call") and \
                 not any((x.get("callee") or "").endswith("::st_not") for x in walk(ifs[0]["else"] or {}) if x["k"] == "Call")
             rep.ob("C07.4", "maybe_not/body", ok, "maybe_not(it, flag) must wrap in Not exactly when flag is true", f.loc())
-        if f.name and f.name.endswith("_conjunction_to_schema"):
-            loops = [n for n in walk(tree["body"]) if n["k"] == "Match" and n.get("src") == "ForLoopDesugar"]
+        loops = [n for n in walk(tree["body"]) if n["k"] == "Match" and n.get("src") == "ForLoopDesugar"]
+        if any(x["k"] == "Field" and x["name"] in ("positive", "negative") for lp in loops for x in walk(lp["scrut"])):
+            n_conj += 1
             seen = {}
             for lp in loops:
                 it = [x["name"] for x in walk(lp["scrut"]) if x["k"] == "Field" and x["name"] in ("positive", "negative")]
@@ -294,7 +300,8 @@ def run(cx, rep):
                 seen[it[0]] = has_not
             rep.ob("C07.4", "%s/atoms" % f.name, seen == {"positive": False, "negative": True},
                    "%s: Not must wrap exactly the negative atoms of a clause (found %s)" % (f.id, seen), f.loc(), sample={"fn": f.name, "not_applied": seen})
-    rep.floor("C07.4", "maybe_not call sites", n_mn, 8)
+    rep.floor("C07.4", "negation wrapper call sites under an `allowed` arm", n_mn, 8)
+    rep.floor("C07.4", "clause materialisers (loops over positive / negative atoms)", n_conj, 4)
 
 
 def atom_field_coverage(cx, rep, F):
